@@ -580,6 +580,77 @@ theorem gen_int_param_is_model (env : Env) (fuel : Nat) (params : Text → Optio
 example : ∃ (params : Text → Option Param) (n : Text), params "size".toList = some (.name n) ∧ n ≠ [] :=
   ⟨fun _ => some (.name "n".toList), "n".toList, rfl, by decide⟩
 
+/-- **the five calls composed are one whole run of the model's `resolveNames`**: the translated `int_param` calls of
+`renderwb`, run one after the other in the order of the source (`paramsRun` over `inBatchParamCalls`: a value `opt()` can
+compute with is stored, anything else sets the TypeError flag, an exception propagates except under the handler of
+`start`), are `resolveNames env fuel names bp0 bad st` - the call `renderBlk` makes for `.inx_` with `names = x.names`,
+`bp0 = x.batch`, `bad = false` - where `names` are the parameters given by the name of a variable, in the order of the
+source (`gen_in_params_names`), and `bp0` holds the numerals, 0 for a parameter that is not given (`litFill`).  The fuel
+is the same on both sides and threads as follows: a parameter given by name costs one unit (its lookup `md[v]` runs with
+what is left after paying), a numeral or an absent parameter costs nothing, each call hands what it has left to the
+next, and one unit must be left after the last call (`paramsRun`; with less: out of fuel on both sides) -/
+theorem gen_in_params_is_resolveNames (env : Env) (params : Text → Option Param)
+    (hn : ∀ c ∈ inBatchParamCalls, ∀ n, params c.1.toList = some (.name n) → n ≠ [])
+    (fuel : Nat) (bp : BatchP) (bad : Bool) (st : St) :
+    paramsRun env params inBatchParamCalls fuel bp bad st =
+      resolveNames env fuel (namesOf params inBatchParamCalls) (litFill params inBatchParamCalls bp) bad st :=
+  params_run env params inBatchParamCalls params_calls_ok.1 params_calls_ok.2.1 params_calls_ok.2.2 hn fuel bp bad st
+
+/-- the list the model resolves is in the order of the source: start, end, size, overlap, orphan, those given by name
+(the order `InXOpts.names` documents: no permutation between the source and the model) -/
+theorem gen_in_params_names (params : Text → Option Param) :
+    namesOf params inBatchParamCalls =
+      ["start", "end", "size", "overlap", "orphan"].filterMap (fun k =>
+        match params k.toList with
+        | some (.name n) => some (k.toList, n)
+        | _ => none) := by
+  simp only [inBatchParamCalls, namesOf, List.filterMap_cons, List.filterMap_nil]
+  generalize params "start".toList = a
+  generalize params "end".toList = b
+  generalize params "size".toList = c
+  generalize params "overlap".toList = d
+  generalize params "orphan".toList = e
+  rcases a with _ | (_ | _) <;> rcases b with _ | (_ | _) <;> rcases c with _ | (_ | _) <;> rcases d with _ | (_ | _) <;>
+    rcases e with _ | (_ | _) <;> rfl
+
+/-- with nothing given by name the calls store the numerals and use no fuel beyond the one unit at the end -/
+theorem gen_in_params_literals (env : Env) (params : Text → Option Param)
+    (h : ∀ c ∈ inBatchParamCalls, ∀ n, params c.1.toList ≠ some (.name n)) (fuel : Nat) (bp : BatchP) (st : St) :
+    paramsRun env params inBatchParamCalls (fuel + 1) bp false st = (.ok (litFill params inBatchParamCalls bp, false), st) := by
+  rw [gen_in_params_is_resolveNames env params (fun c hc n hq => absurd hq (h c hc n))]
+  have hnil : namesOf params inBatchParamCalls = [] := by
+    have key : ∀ cs : List (String × Val × Option Int), (∀ c ∈ cs, ∀ n, params c.1.toList ≠ some (.name n)) →
+        namesOf params cs = [] := by
+      intro cs
+      induction cs with
+      | nil => intro _; rfl
+      | cons c cs ih =>
+        intro hc
+        have ih' := ih (fun c' h' => hc c' (List.mem_cons_of_mem _ h'))
+        unfold namesOf
+        cases hq : params c.1.toList with
+        | none => exact ih'
+        | some q =>
+          cases q with
+          | lit k => exact ih'
+          | name n => exact absurd hq (hc c (List.mem_cons_self ..) n)
+    exact key _ h
+  rw [hnil]
+  unfold resolveNames
+  rfl
+
+/-- the hypothesis of `gen_in_params_is_resolveNames` is satisfiable with parameters of every kind -/
+example : ∃ params : Text → Option Param,
+    (∀ c ∈ inBatchParamCalls, ∀ n, params c.1.toList = some (.name n) → n ≠ []) ∧
+    params "start".toList = some (.name "s".toList) ∧ params "size".toList = some (.lit 3) ∧ params "end".toList = none :=
+  ⟨fun p => if p = "start".toList then some (.name "s".toList) else if p = "size".toList then some (.lit 3) else none,
+    by
+      intro c hc n hq
+      rw [gen_in_param_calls] at hc
+      simp only [List.mem_cons, List.not_mem_nil, or_false] at hc
+      rcases hc with rfl | rfl | rfl | rfl | rfl <;> cases hq <;> decide
+    , rfl, rfl, rfl⟩
+
 /-- **the window**: `opt(start, end, size, orphan, sequence)` with the arguments in the order of the source, then the
 clamp of `end`, is `Batch.window` -/
 theorem gen_in_window_is_model (start end_ size overlap orphan : Int) (s : Seq) :
